@@ -918,6 +918,12 @@ class FakeChunked(_S):
     def __len__(self):
         return sum(len(c) for c in self.chunks)
 
+    def to_numpy(self, zero_copy_only=True, **kw):
+        parts = [c.arr if hasattr(c, "arr") and not isinstance(c, A) else c for c in self.chunks]
+        if not all(isinstance(x, A) for x in parts):
+            raise OutsideModel("ChunkedArray.to_numpy on these chunks")
+        return A([cell for x in parts for cell in x.cells], parts[0].dtype if parts else "float64")
+
     @property
     def dtype(self):
         raise AttributeError("dtype")      # pa.ChunkedArray has .type, not .dtype
@@ -1292,7 +1298,12 @@ class PDShim:
 
     class core:
         class base:
-            PandasObject = _S            # Series / Index / frame fakes all derive from _S
+            class _POMeta(type):
+                def __instancecheck__(cls, obj):
+                    return isinstance(obj, (FakeSeries, FakeIndex, FakeFrame, FakeCategorical))
+
+            class PandasObject(metaclass=_POMeta):
+                pass
 
     @staticmethod
     def isna(x):
@@ -1366,14 +1377,113 @@ class PLShim:
         return Stub("pl." + a)
 
 
+class _PAArrayBase(_S):
+    pass
+
+
+class FakeArrowInts(_PAArrayBase):
+    """the index buffer of a dictionary array"""
+    def __init__(self, arr):
+        self.arr = arr
+
+    def to_numpy(self, zero_copy_only=True, **kw):
+        return self.arr
+
+    def __len__(self):
+        return len(self.arr)
+
+
+class FakeArrowValues(_PAArrayBase):
+    """the dictionary of a dictionary array: concrete, pairwise distinct values"""
+    def __init__(self, values):
+        self.values = list(values)
+
+    def to_pandas(self, types_mapper=None, **kw):
+        return list(self.values)
+
+    def to_pylist(self):
+        return list(self.values)
+
+    def __len__(self):
+        return len(self.values)
+
+
+class FakeDictArray(_PAArrayBase):
+    """contract model of a pyarrow DictionaryArray without nulls: indices (symbolic) into a concrete dictionary"""
+    def __init__(self, indices, dictionary):
+        self.indices = indices if isinstance(indices, FakeArrowInts) else FakeArrowInts(indices)
+        self.dictionary = dictionary if isinstance(dictionary, FakeArrowValues) else FakeArrowValues(dictionary)
+        self.null_count = 0
+
+    def __len__(self):
+        return len(self.indices)
+
+    def dictionary_encode(self, *a, **k):
+        return self                        # already dictionary encoded: pyarrow returns the array unchanged
+
+    def combine_chunks(self):
+        return self
+
+    type = "dictionary"
+
+
+class FakeDictChunked(FakeChunked):
+    """contract model of a ChunkedArray of dictionary arrays whose chunks may carry DIFFERENT dictionaries;
+    combine_chunks() unifies the dictionaries (values in order of first appearance) and re-maps the indices, as pyarrow does"""
+    def __init__(self, chunks):
+        self.chunks = list(chunks)
+        self.null_count = 0
+
+    @property
+    def num_chunks(self):
+        return len(self.chunks)
+
+    def chunk(self, i):
+        return self.chunks[i]
+
+    @property
+    def type(self):
+        return "dictionary"
+
+    def dictionary_encode(self, *a, **k):
+        return self
+
+    def combine_chunks(self):
+        unified = []
+        for ch in self.chunks:
+            for v in ch.dictionary.values:
+                if v not in unified:
+                    unified.append(v)
+        cells = []
+        for ch in self.chunks:
+            remap = [unified.index(v) for v in ch.dictionary.values]
+            for c in ch.indices.arr.cells:
+                e = remap[-1] if remap else 0
+                for j in range(len(remap) - 1, -1, -1):
+                    e = ite(c == j, remap[j], e)
+                cells.append(e)
+        return FakeDictArray(A(cells, "int64"), unified)
+
+    def __getitem__(self, sl):
+        raise OutsideModel("slicing a dictionary ChunkedArray")
+
+
 class PAShim:
     ChunkedArray = FakeChunked
+    Array = _PAArrayBase
+    DictionaryArray = FakeDictArray
 
-    class Array(_S):
-        pass
+    class types:
+        @staticmethod
+        def is_dictionary(t):
+            return isinstance(t, str) and t == "dictionary"
 
-    class DictionaryArray(_S):
-        pass
+    @staticmethod
+    def concat_arrays(arrays, *a, **k):
+        arrays = list(arrays)
+        if arrays and all(isinstance(x, FakeArrowInts) for x in arrays):
+            return FakeArrowInts(A([c for x in arrays for c in x.arr.cells], "int64"))
+        raise OutsideModel("pa.concat_arrays on these objects")
 
     @staticmethod
     def chunked_array(chunks, type=None):
